@@ -26,7 +26,7 @@ try:
     d = re.sub(r"^(---|\+\+\+) ([ab])/(\S+).*$", r"\1 \2/\3", d, flags=re.M)
     out = "/verif/selftest/mutants/%s/%s.patch" % (pid, name)
     os.makedirs(os.path.dirname(out), exist_ok=True)
-    open(out, "w").write("".join("# expect: %s\n" % e for e in expect.split("|") if e) + d)
+    open(out, "w").write("".join("# expect: %s\n" % e for e in expect.split("||") if e) + d)
     print("wrote", out, len(d.splitlines()), "lines")
 finally:
     shutil.rmtree(W)
